@@ -220,11 +220,15 @@ pub fn run(p: &Params) -> Report {
         let mult = *r.pick(&FEE_MULTS);
         let net = *r.pick(&[NetID::Custom02, NetID::Custom08, NetID::Testnet, NetID::Mainnet]);
         let height = match net {
-            NetID::Mainnet => 1_100_000,
-            NetID::Testnet => 1_000_000,
+            NetID::Mainnet => *r.pick(&[1_100_000u64, 940_000, 1_000_000]),
+            NetID::Testnet => *r.pick(&[1_000_000u64, 300]),
             _ => 20,
         };
-        let mut w = World::fabricated(case_seed, net, height, mult, r.loguniform(80));
+        let pool = match r.below(3) {
+            0 => r.below(70_000) as u128,
+            _ => r.loguniform(80),
+        };
+        let mut w = World::fabricated(case_seed, net, height, mult, pool);
         w.profile.hostile = 10;
         w.profile.dependent_permille = 200;
         let blocks = 3 + r.usize(5);
